@@ -63,12 +63,12 @@ Proof. vm_compute. reflexivity. Qed.
 Example ex_by_height : map id (by_height_range ex_store 1 (Some 2)) = [2; 5; 3; 7; 6; 4]%N.
 Proof. vm_compute. reflexivity. Qed.
 
-(* refutation 0: when height + count - 1 does not fit a 64-bit int the sum wraps (Go int arithmetic) and the window is lost:
-   height 2, count 2^63-1 -> end wraps to -2^63 -> nothing, although the Longest header 7 has height 2;
-   height -2^63, count -5 (an EMPTY window) -> end wraps to 2^63-6 -> every stored row *)
-Theorem by_height_overflow_refuted :
+(* history (before the fix 76f1492 of /repo): when height + count - 1 did not fit a 64-bit int the Go sum wrapped and the
+   window was lost: height 2, count 2^63-1 -> end -2^63 -> nothing, although the Longest header 7 has height 2;
+   height -2^63, count -5 (an EMPTY window) -> end 2^63-6 -> every stored row.  (Formerly C04_by_height_overflow_refuted.) *)
+Theorem by_height_overflow_refuted_before_fix :
   exists s h c r, Valid s /\ - two63 <= h < two63 /\ - two63 <= c < two63 /\
-    In r s /\ st r = Longest /\ h <= height r <= h + c - 1 /\ ~ In r (by_height_range s h (Some c)).
+    In r s /\ st r = Longest /\ h <= height r <= h + c - 1 /\ ~ In r (by_height_range_before_fix s h (Some c)).
 Proof.
   assert (E: exists r, by_hash ex_store 7 = Some r /\ st r = Longest /\ height r = 2).
   { eexists. split; [vm_compute; reflexivity| split; reflexivity]. }
@@ -76,13 +76,17 @@ Proof.
   exists ex_store, 2, (two63 - 1), r. split; [exact ex_valid|].
   split; [unfold two63; lia|]. split; [unfold two63; lia|].
   split; [apply (by_hash_in _ _ _ Er)|]. split; [exact HL|]. split; [rewrite Hh; unfold two63; lia|].
-  intro Hin. destruct (proj1 (by_height_char ex_store 2 (Some (two63 - 1)) r) Hin) as [_ [_ Hle]]. rewrite Hh in Hle.
-  assert (Ew: window_end 2 (count_of (Some (two63 - 1))) = - two63) by (vm_compute; reflexivity).
+  intro Hin. destruct (proj1 (by_height_before_fix_char ex_store 2 (Some (two63 - 1)) r) Hin) as [_ [_ Hle]]. rewrite Hh in Hle.
+  assert (Ew: window_end_before_fix 2 (count_of (Some (two63 - 1))) = - two63) by (vm_compute; reflexivity).
   rewrite Ew in Hle. unfold two63 in Hle. lia.
 Qed.
 
-Example by_height_overflow_negative : map id (by_height_range ex_store (- two63) (Some (-5))) = [1; 2; 5; 3; 7; 6; 4]%N.
-Proof. vm_compute. reflexivity. Qed.
+(* the same two queries on the code as it is *)
+Example by_height_overflow_fixed :
+  map id (by_height_range ex_store 2 (Some (two63 - 1))) = [7; 6; 4]%N /\
+  by_height_range ex_store (- two63) (Some (-5)) = [] /\
+  map id (by_height_range_before_fix ex_store (- two63) (Some (-5))) = [1; 2; 5; 3; 7; 6; 4]%N.
+Proof. vm_compute. repeat split; reflexivity. Qed.
 
 (* two DIFFERENT headers of equal height: the same-chain error (before the fix ed2f6a2: the empty list) *)
 Example ancestors_equal_height : ancestors ex_store 2 3 = AErr ENotSame /\ ancestors_before_fix ex_store 2 3 = AOk [].
